@@ -51,7 +51,8 @@ pub fn run(ctx: &Ctx) -> bool {
         "C11" => {
             c11::run(ctx);
             c11::run_churn(ctx);
-            c11::run_pool_memory(ctx)
+            c11::run_pool_memory(ctx);
+            c11::run_tiny_segments(ctx)
         }
         "C12" => c12::run(ctx),
         "C13" => {
